@@ -107,6 +107,8 @@ def run(fx, chk, tier):
         first = next((x for x in m.Lw["items"] if x["n"] not in ("let",)), None)
         okh = first is not None and first["n"] == "hdr" and first.get("ty") is not None and LY.norm_expr(first["ty"]) in ("self.box_type()", "box_type()")
         chk.require(okh, "R1", s + "|header", "header carries the box's own type and box_size()", "%s::write_box does not start with its own header" % s, site_of(m.fw))
+    # the esds descriptors (reachable through Mp4aBox): their sizes enter every enclosing box size through desc_size()
+    c04.desc_sizes(fx, chk, "R1", floor=4)
     chk.floor("R1", "encoders reachable from the muxer", n1, 30)
     chk.floor("R1", "encoders whose size was compared", n1 - nskip, 28)
 
